@@ -51,7 +51,9 @@ def goodCfg (rollup : Bool) : Cfg :=
                 "num_threads", "open_files", "ppid", "rlimit", "status", "terminal", "threads", "uids", "wait"]
     memoized := ["_parse_stat_file", "_read_smaps_file", "_read_status_file"]
     feMemoized := ["cpu_times", "memory_info", "ppid", "uids"]
-    hasRollup := rollup }
+    hasRollup := rollup
+    goneGuard := true
+    childrenPopSelf := true }
 
 /-- the source before the repair of lead L3: ppid_map() tolerates only ENOENT / ESRCH -/
 def preFixCfg (rollup : Bool) : Cfg :=
